@@ -47,6 +47,26 @@ DESC = {
     "C18b": "profiler stats file written to the current directory (only with RP2_ENABLE_PROFILER)",
     "C19a": "in-lot rows registered as link targets only if sold % is non-zero or the lot is taxable (dust sale: link lost / stale)",
     "C19b": "artificial fee transaction inherits the row id of its in-transaction (lot links point to the fee row)",
+    "C01c": "AVL lot key built from wall-clock time (lots 'acquired at or before the disposal' decided on local time under mixed offsets)",
+    "C02c": "re-push only when the event amount is smaller than the lot (an earn event at least as large as its lot drops the lot from the heap)",
+    "C03c": "taxable transactions merged in a dict keyed by unique_id (rows sharing a tx hash are silently dropped)",
+    "C04c": "supplied fiat_fee of an out-transaction honoured only together with fiat_out_no_fee (fee-only events lose the exchange-supplied fee value)",
+    "C05c": "income events classified by (event - event).days >= period (LONG under generic with LONG_TERM_CAPITAL_GAINS=0)",
+    "C06c": "summary key (year, type) re-read only when the event timestamp changes (same-instant events of different types merged)",
+    "C07c": "out debit = crypto_taxable_amount + crypto_fee (FEE-typed outs counted twice in sent / final)",
+    "C08c": "balance replay over the date-filtered sets (with -f the overdraft check only sees the window)",
+    "C09c": "fraction-numbering dictionaries cleared in place (shared between the to-date view and the unfiltered set: counts include fractions after the to-date)",
+    "C10c": "fraction numbering skips fractions before the from-date (k of n restarts at the window start)",
+    "C11c": "row scanning stops at the TABLE END of the INTRA table (tables placed after INTRA are never read)",
+    "C12c": "OUT type whitelist rewritten as a blacklist that forgets MOVE",
+    "C13c": "YearlyGainLoss equality / hash without the long/short flag (one of the LONG / SHORT summary lines of a year is dropped)",
+    "C14c": "LONG/SHORT label computed on the first fraction of an event and reused for its other fractions",
+    "C15c": "holder balances collected with itertools.groupby over a list sorted by exchange (non-adjacent accounts of a holder overwrite each other)",
+    "C16c": "open_positions tests the unsold cost with exact truthiness (a fully sold lot consumed in thirds keeps 3e-29: KeyError)",
+    "C17c": "holders with a balance collected in a set (order of the per-holder Total lines depends on PYTHONHASHSEED)",
+    "C18c": "existing report renamed to <name>.bak relative to the current directory instead of being deleted",
+    "C19c": "Summary link row remembered per year, not per (asset, year) (an asset whose rows are all hidden links to the previous asset's row)",
+    "C20c": "DONATE text of the JP sheet no longer cleared after every row (leaks into a later income row)",
     "C20a": "closing-balance row kept in generator state keyed by year and shared across assets (later-starting asset references another asset's year)",
     "C20b": "transactions grouped into year sheets by UTC year (non-UTC timestamp near New Year)",
 }
